@@ -163,8 +163,15 @@ def _sample_repr(sub, case, limit=1500):
     return {'sub': sub, 'case': s}
 
 
-def _run_case(mod, sub, case, st, findings, ignored, count=True):
-    """returns None if ok/discarded/known, else the Violation."""
+BUDGET_SCALE = 1          # multiplies the per-case wall-clock limit and the rewrite-step bounds (evharness) during a confirmation run
+BUDGET_KINDS = ('hang', 'step-bound')
+
+
+def _run_case(mod, sub, case, st, findings, ignored, count=True, long=False):
+    """returns None if ok/discarded/known, else the Violation.
+    A case that exhausts a budget (wall-clock limit, rewrite-step bound) is run once more with ten times the budget: only a case
+    that exhausts that as well is reported; one that completes was slow, not non-terminating (inconclusive, counted)."""
+    global BUDGET_SCALE
     rec = Rec()
     if count:
         st.evaluations += 1
@@ -172,15 +179,18 @@ def _run_case(mod, sub, case, st, findings, ignored, count=True):
     import signal
     try:
         old = signal.signal(signal.SIGALRM, _alarm)
-        signal.setitimer(signal.ITIMER_REAL, sub.timeout)
+        limit = sub.timeout * (10 if long else 1)
+        signal.setitimer(signal.ITIMER_REAL, limit)
+        BUDGET_SCALE = 10 if long else 1
         try:
             try:
                 sub.check(case, rec)
             finally:
                 signal.setitimer(signal.ITIMER_REAL, 0)
                 signal.signal(signal.SIGALRM, old)
+                BUDGET_SCALE = 1
         except CaseTimeout:
-            raise Violation('hang', f'case did not finish within {sub.timeout}s (normal cases take milliseconds)', where='timeout')
+            raise Violation('hang', f'case did not finish within {limit}s (normal cases take milliseconds)', where='timeout')
     except Discard as d:
         st.discards[sub.name + ':' + d.reason] += 1
         return None
@@ -191,6 +201,12 @@ def _run_case(mod, sub, case, st, findings, ignored, count=True):
             return None
         if v.signature in ignored:
             return None
+        if v.kind in BUDGET_KINDS and not long:
+            v2 = _run_case(mod, sub, case, ShardState(), findings, ignored, count=False, long=True)
+            if v2 is None:
+                st.labels[f'{sub.name}:inconclusive-budget-exceeded-completes-with-10x'] += 1
+                return None
+            v = v2
         v.__traceback__ = None   # do not keep frames (and the nutils objects in them) alive
         v.__context__ = None
         return v
